@@ -25,6 +25,7 @@ CHECKS = {
     },
     "C07": {
         "pkgs": ["./pkg/netceptor", "./pkg/backends", "./pkg/framer"],
+        "schedule_harnesses": ["Verif_C07_updates_while_the_table_is_being_rebuilt"],
         "bounds": "one arbitrary datagram before the handshake, and one after a correct handshake, drawn from: raw bytes 0..2, data packet with "
                   "arbitrary 36-byte header, routing update / service advertisement with every field arbitrary (strings <= 1 byte, maps <= 2 "
                   "entries, embedded record nil or present), reject; routing-table computation over 3 nodes with arbitrary real costs, unwind 12; "
